@@ -133,6 +133,7 @@ func PlanFor(prop, tier string) (*Plan, error) {
 		}
 		deep := !quick
 		p.Monitors = func() []Monitor { return []Monitor{NewC15(deep)} }
+		p.Post = c15GenesisParams
 		p.Rule = "at every distinct module state of the multi-auction, early-release batch and fixed lifecycle scenarios: ExportGenesis -> JSON -> Validate; wipe the module store on a branch and InitGenesis; compare auctions, bids, allow-lists, instalments, counters and params byte by byte; then run original and re-imported branch in lock-step over every single op of the scenario menu, every pair (thorough: triple) of later block instants and bid-then-block sequences, comparing decisions, the seven collections and balances after every step; non-trivial = distinct exported states holding at least one auction"
 	case "C10":
 		p.Scenarios = []*Scenario{S1a(tier, true).withMsgAddAllow(), S3(tier, false).withMsgAddAllow(), S1b(tier, "3", true).withMsgAddAllow(), S2b(tier, 0, true).withMsgAddAllow()}
